@@ -54,6 +54,29 @@ def c13 (op : String) (a : Array Json) : R (Option Json) := do
        ("fine", listJ natJ r.2), ("arrived", Json.arr arrived),
        ("excluded", Json.bool (Excluded_appendDuringIteration mode compute s0 r.2)),
        ("done", Json.bool (allDone r.1))])))
+  | "c13_coarsen" =>
+    -- rewrite a fine schedule as quanta of the traced scheduler, if it is one (greedy; answers
+    -- {"err":...} when a quantum would be split, i.e. the schedule is not realisable at line granularity)
+    let mode ← jMode (← arg a 1)
+    let dq0 ← jList jKey (← arg a 2)
+    let progs ← jList (jList jKey) (← arg a 3)
+    let fine ← jList jNat (← arg a 4)
+    let compute : Key → Key := fun k => k
+    let mut s : CState Key := cinit (dq0.map fun k => (k, k)) progs
+    let mut rest := fine
+    let mut coarse : Array Json := #[]
+    let mut bad := false
+    for _ in [0:fine.length] do
+      match rest with
+      | [] => break
+      | t :: _ =>
+        let q := quantum mode compute t s
+        if q.2.isPrefixOf rest then
+          s := q.1; rest := rest.drop q.2.length; coarse := coarse.push (natJ t)
+        else
+          bad := true; break
+    if bad then pure (some (Json.mkObj [("err", Json.str "not-line-realisable")]))
+    else pure (some (okJ (Json.mkObj [("coarse", Json.arr coarse)])))
   | "c13_memo_run" =>
     let m0 ← jList jNat (← arg a 1)
     let progs ← jList (jList jNat) (← arg a 2)
